@@ -20,6 +20,9 @@
 //!             roots / URLs in argv order; further renderings are named <R>@flagsfirst (flag values first, then positionals), <R>@<letter>
 //!             (that root alone) so that the answer tells which store the tool used
 //!           | U...d: --symbols-url without --symbols-cache / --symbols-tmp (defaults below $TMPDIR)
+//!           | U2s: the server answers for test_app's symbol file after 1.5 s (no timeout option: the default of 1000 s waits);
+//!             U2w: after 8 s, with `--symbols-download-timeout-secs 1` (the download is given up; the in-process reference
+//!             uses the same timeout)
 //!   modes   '-' or letters of h(--human) j(--json) c(--cyborg) D(--dump) m(--help-markdown)
 //!   feat    0 stable-basic | 1 stable-all | 2 unstable-all | 9 (no --features argument)
 //!   out/cy/log  '-' absent | g writable file | b path in a missing directory | u /dev/full | d an existing directory
@@ -583,6 +586,7 @@ struct SymSrc {
     urls: Vec<String>,
     cache: PathBuf,
     tmp: PathBuf,
+    timeout: u64, // seconds: what --symbols-download-timeout-secs says (default 1000)
 }
 
 fn lib_run(path: &Path, sym: &SymSrc, feat: u64, rfa_flag: bool, evil: bool) -> LibOut {
@@ -635,7 +639,7 @@ fn lib_run(path: &Path, sym: &SymSrc, feat: u64, rfa_flag: bool, evil: bool) -> 
                 sym.urls.clone(),
                 sym.cache.join(sub),
                 sym.tmp.clone(),
-                Duration::from_secs(1000),
+                Duration::from_secs(sym.timeout),
             ))));
         } else if !sym_dirs.is_empty() {
             provider.add(Box::new(Symbolizer::new(simple_symbol_supplier(sym_dirs.to_vec()))));
@@ -859,6 +863,21 @@ fn start_symbol_server(alt_root: PathBuf) -> u16 {
                 }
                 let line = String::from_utf8_lossy(&req).lines().next().unwrap_or("").to_string();
                 let path = line.split(' ').nth(1).unwrap_or("/").split('?').next().unwrap_or("/").to_string();
+                // /slow/ and /wait/: the symbol file of test_app is served like /ok/ but only after 1.5 s / 8 s (every other
+                // file: 404 at once) - a download that the default timeout of 1000 s must wait for, and one that
+                // `--symbols-download-timeout-secs 1` must give up on
+                let mut path = path;
+                for (prefix, ms) in [("/slow/", 1500u64), ("/wait/", 8000u64)] {
+                    if let Some(rest) = path.strip_prefix(prefix) {
+                        if rest.ends_with("test_app.sym") {
+                            std::thread::sleep(Duration::from_millis(ms));
+                            path = format!("/ok/{}", rest);
+                        } else {
+                            path = format!("/nf/{}", rest);
+                        }
+                        break;
+                    }
+                }
                 let served = path.strip_prefix("/ok/").map(|r| (r, &root)).or_else(|| path.strip_prefix("/alt/").map(|r| (r, &alt_root)));
                 let (code, body): (u32, Vec<u8>) = if let Some((rest, root)) = served {
                     let rest = rest.replace("%2F", "/");
@@ -1161,7 +1180,7 @@ fn run(st: &mut State, line: &str) -> String {
     // ---- symbol sources: arguments in front of / behind the minidump, and what the library is given in-process
     let mut pre_args: Vec<String> = vec![];
     let mut post_args: Vec<String> = vec![];
-    let mut src = SymSrc { dirs: vec![], urls: vec![], cache: casedir.join("lib-cache"), tmp: casedir.join("lib-tmp") };
+    let mut src = SymSrc { dirs: vec![], urls: vec![], cache: casedir.join("lib-cache"), tmp: casedir.join("lib-tmp"), timeout: 1000 };
     let mut variants: Vec<(String, Vec<PathBuf>)> = vec![]; // further in-process runs: (suffix, roots)
     let mut tool_cache_tmp: Option<(PathBuf, Option<PathBuf>)> = None;
     let mut url_of = |st: &mut State, mode: &str| -> String {
@@ -1171,11 +1190,18 @@ fn run(st: &mut State, line: &str) -> String {
         format!("http://127.0.0.1:{}/{}/", st.port, mode)
     };
     if let Some(rest) = sym.strip_prefix('U') {
-        let mode = match &rest[..1] {
-            "2" => "ok",
-            "4" => "nf",
+        let mode = match (&rest[..1], &rest[1..]) {
+            ("2", "s") => "slow",
+            ("2", "w") => "wait",
+            ("2", _) => "ok",
+            ("4", _) => "nf",
             _ => "gb",
         };
+        if &rest[1..] == "w" {
+            pre_args.push("--symbols-download-timeout-secs".into());
+            pre_args.push("1".into());
+            src.timeout = 1;
+        }
         let url = url_of(st, mode);
         pre_args.push("--symbols-url".into());
         pre_args.push(url.clone());
@@ -1500,7 +1526,7 @@ fn run(st: &mut State, line: &str) -> String {
     };
     if lib.class == "O" {
         for (suffix, roots) in variants.iter() {
-            let v = SymSrc { dirs: roots.clone(), urls: vec![], cache: src.cache.clone(), tmp: src.tmp.clone() };
+            let v = SymSrc { dirs: roots.clone(), urls: vec![], cache: src.cache.clone(), tmp: src.tmp.clone(), timeout: 1000 };
             let l2 = lib_get(st, input, &in_path, &v, feat, rfa, evil, true);
             for (n, b) in l2.renderings {
                 if n != "D" && n != "DB" {
